@@ -750,7 +750,7 @@ pub fn s_split(cx: &mut Ctx) {
     }
     // ite_constant / is_implies on arguments whose un-memoised walk is exponential although the
     // diagrams are tiny (parity over n variables): the answer is compared with the ITE itself
-    for (pi, &n) in (if cx.thorough { vec![8usize, 12, 16, 18, 20, 21, 22] } else { vec![10, 16, 21] }).iter().enumerate() {
+    for (pi, &n) in (if cx.thorough { vec![8usize, 12, 16, 17, 18, 19, 20, 21, 22] } else { vec![10, 19, 21] }).iter().enumerate() {
         cx.ex.begin_case();
         cx.ex.tt = None;
         cx.ex.scan_every = 1_000_000_000;
@@ -768,7 +768,7 @@ pub fn s_split(cx: &mut Ctx) {
         let g = cx_op!(cx, format!("or {} {}", p, w));
         let np = cx_op!(cx, format!("not {}", p));
         // collections in between so that the operation cache does not answer for the probe
-        let roots = format!("gc {} {} {} {} {} {}", f, g, p, np, z, w);
+        let roots = format!("gc {} {} {} {} {} {} {}", f, g, p, np, z, w, vs[1]);
         let mut ask = |cx: &mut Ctx, a: usize, b: usize, c: usize| {
             cx.op(roots.clone());
             cx_op!(cx, format!("itec {} {} {}", a, b, c));
@@ -789,6 +789,57 @@ pub fn s_split(cx: &mut Ctx) {
         ask(cx, p, g, np); // ITE(p, g, ~p) = 1
         ask(cx, p, f, np);
         ask(cx, np, f, 1);
+        // genuine three-argument instances: sub-triples of both polarities inside one long walk
+        if n >= 16 && n <= 19 {
+            let x = vs[n + 1];
+            let big = cx_op!(cx, format!("ite {} {} {}", x, p, np));   // x XNOR-ish p: p below another variable
+            let nbig = cx_op!(cx, format!("not {}", big));
+            let q = cx_op!(cx, format!("xor {} {}", p, vs[n + 2]));
+            let nq = cx_op!(cx, format!("not {}", q));
+            let roots2 = format!("gc {} {} {} {} {} {} {} {} {} {} {}", f, g, p, np, z, w, big, nbig, q, nq, vs[1]);
+            let mut ask2 = |cx: &mut Ctx, a: usize, b: usize, c: usize| {
+                cx.op(roots2.clone());
+                cx_op!(cx, format!("itec {} {} {}", a, b, c));
+                let said = cx.reply().to_string();
+                cx.op(roots2.clone());
+                let r = cx_op!(cx, format!("ite {} {} {}", a, b, c));
+                let want = if cx.ex.env[r] == cx.ex.env[0] { "some1" } else if cx.ex.env[r] == cx.ex.env[1] { "some0" } else { "none" };
+                if !said.starts_with("panic") && said != want {
+                    let m = format!("ite_constant says {}, the ITE itself is {}", said, crate::exec::show_ref(cx.ex.env[r]));
+                    cx.ex.fail(&["C12"], m);
+                }
+            };
+            ask2(cx, p, big, nbig);
+            ask2(cx, big, p, np);
+            ask2(cx, p, q, nq);
+            ask2(cx, q, big, nbig);
+            // the same parity with and without the TOP variable: p2 = x2 ^ … ^ xn, so that the cofactors of the
+            // other two arguments by x1 are p2 and its complement (both polarities of one triple in one walk)
+            let p2 = cx_op!(cx, format!("xor {} {}", p, vs[1]));
+            let np2 = cx_op!(cx, format!("not {}", p2));
+            let roots3 = format!("gc {} {} {} {} {} {} {} {} {} {} {} {} {}", f, g, p, np, z, w, big, nbig, q, nq, p2, np2, vs[1]);
+            let mut ask3 = |cx: &mut Ctx, a: usize, b: usize, c: usize| {
+                cx.op(roots3.clone());
+                cx_op!(cx, format!("itec {} {} {}", a, b, c));
+                let said = cx.reply().to_string();
+                cx.op(roots3.clone());
+                let r = cx_op!(cx, format!("ite {} {} {}", a, b, c));
+                let want = if cx.ex.env[r] == cx.ex.env[0] { "some1" } else if cx.ex.env[r] == cx.ex.env[1] { "some0" } else { "none" };
+                if !said.starts_with("panic") && said != want {
+                    let m = format!("ite_constant says {}, the ITE itself is {}", said, crate::exec::show_ref(cx.ex.env[r]));
+                    cx.ex.fail(&["C12"], m);
+                }
+            };
+            for &a in &[p2, np2] {
+                for &(b, c) in &[(np, p), (p, np), (q, nq), (nbig, big)] {
+                    ask3(cx, a, b, c);
+                }
+            }
+            for &a in &[p, q] {
+                ask3(cx, a, p2, np2);
+                ask3(cx, a, np2, p2);
+            }
+        }
         cx.end();
     }
     // 2 + 2 + 2 for ITE
@@ -2604,6 +2655,254 @@ pub fn s_cache_large(cx: &mut Ctx) {
     }
 }
 
+/// a "level-skipping" truth table over six variables: every node picks its variable with gaps and its two
+/// cofactors skip levels independently of each other (random dense tables depend on every variable at
+/// every node; these do not)
+fn sparse_fn(cx: &mut Ctx, tt: &TT, level: u32) -> u64 {
+    let mut v = level;
+    while v <= 6 && cx.rng.chance(2, 5) {
+        v += 1;
+    }
+    if v > 6 {
+        return if cx.rng.chance(1, 2) { tt.full() } else { 0 };
+    }
+    let a = sparse_fn(cx, tt, v + 1);
+    let b = match cx.rng.below(6) {
+        0 => !a & tt.full(),
+        _ => sparse_fn(cx, tt, v + 1),
+    };
+    ((tt.var(v) & a) | (!tt.var(v) & b)) & tt.full()
+}
+
+/// C09–C12 (and C02, C03, C08): arguments whose sub-functions start at different levels — the two
+/// branches of `f` have different top variables, the care set / the substituted function lives on the
+/// levels in between or skips them — through every operation that walks two or three diagrams in
+/// parallel, with the truth-table oracle
+pub fn s_sparse(cx: &mut Ctx) {
+    let cases = if cx.thorough { 200 } else { 14 };
+    for c in 0..cases {
+        cx_begin!(cx, 6, format!("new {} {} {}", 11 + c % 3, c % 5, 1 + (c * 3) % 9), if c % 4 == 0 { 1 } else { 64 });
+        let tt = cx.ex.tt.unwrap();
+        let mut memo = HashMap::new();
+        let mut pool: Vec<usize> = vec![];
+        let mut tabs: Vec<u64> = vec![];
+        for k in 0..22 {
+            // some start below the top level, so that one argument lies strictly inside the other's levels
+            let t = sparse_fn(cx, &tt, 1 + (k % 3) as u32);
+            if t == 0 || t == tt.full() {
+                continue;
+            }
+            tabs.push(t);
+            pool.push(build(cx, &mut memo, t));
+        }
+        if pool.len() < 4 {
+            cx.end();
+            continue;
+        }
+        let pairs = if cx.thorough { 400 } else { 160 };
+        for k in 0..pairs {
+            let f = *cx.rng.pick(&pool);
+            let g = *cx.rng.pick(&pool);
+            let h = *cx.rng.pick(&pool);
+            match k % 4 {
+                0 => {
+                    cx_op!(cx, format!("restrict {} {}", f, g));
+                    cx_op!(cx, format!("constrain {} {}", f, g));
+                }
+                1 => {
+                    let v = 1 + cx.rng.below(6);
+                    cx_op!(cx, format!("compose {} {} {}", f, v, g));
+                    cx_op!(cx, format!("restrict {} {}", g, f));
+                }
+                2 => {
+                    cx_op!(cx, format!("ite {} {} {}", f, g, h));
+                    cx_op!(cx, format!("itec {} {} {}", f, g, h));
+                    cx_op!(cx, format!("implies {} {}", f, g));
+                }
+                _ => {
+                    cx_op!(cx, format!("constrain {} {}", g, f));
+                    let v = 1 + cx.rng.below(6);
+                    cx_op!(cx, format!("subst {} {} {}", f, v, k % 2));
+                    cx_op!(cx, format!("and {} {}", f, g));
+                }
+            }
+            if k % 50 == 49 {
+                // a collection in between: cold caches for the next block (the pool stays)
+                let roots: Vec<String> = pool.iter().map(|h| h.to_string()).collect();
+                cx_op!(cx, format!("gc {}", roots.join(" ")));
+            }
+        }
+        cx.end();
+    }
+}
+
+/// random table over exactly the variables `vs` (positions in the six-variable universe), depending on `vs[0]`
+fn table_over(cx: &mut Ctx, tt: &TT, vs: &[u32]) -> u64 {
+    for _ in 0..20 {
+        // a random function of the chosen variables: random value per assignment of them
+        let r = cx.rng.next();
+        let mut t = 0u64;
+        for a in 0..64u64 {
+            // index of the assignment restricted to vs
+            let mut k = 0;
+            for (i, &v) in vs.iter().enumerate() {
+                if (tt.var(v) >> a) & 1 == 1 {
+                    k |= 1 << i;
+                }
+            }
+            if (r >> k) & 1 == 1 {
+                t |= 1 << a;
+            }
+        }
+        t &= tt.full();
+        if tt.cof(t, vs[0], false) != tt.cof(t, vs[0], true) {
+            return t;
+        }
+    }
+    tt.var(vs[0])
+}
+
+/// staggered arguments: the two branches of `f` start at different levels (one skips further down than the
+/// other), the second argument ignores `f`'s top variable, starts above both branches and reaches below
+/// the higher of them — five distinct levels a < j < d < ta < tb chosen among the six in every way
+pub fn s_staggered(cx: &mut Ctx) {
+    let rounds = if cx.thorough { 40 } else { 2 };
+    for round in 0..rounds {
+        for skip in 1..=6u32 {
+            let lv: Vec<u32> = (1..=6).filter(|&v| v != skip).collect();
+            let (a, j, dl, ta, tb) = (lv[0], lv[1], lv[2], lv[3], lv[4]);
+            cx_begin!(cx, 6, format!("new 12 {} {}", (round + skip as usize) % 5, 4 + (skip as usize) % 7), 64);
+            let tt = cx.ex.tt.unwrap();
+            let mut memo = HashMap::new();
+            let below_b: Vec<u32> = (tb..=6).collect();
+            let below_a: Vec<u32> = (ta..=6).collect();
+            let mut gv: Vec<u32> = vec![j, dl];
+            gv.extend((ta..=6).filter(|_| true));
+            let n_f = if cx.thorough { 10 } else { 6 };
+            let n_g = if cx.thorough { 16 } else { 10 };
+            let mut fs = vec![];
+            for k in 0..n_f {
+                let fb = table_over(cx, &tt, &below_b);
+                let fa = table_over(cx, &tt, &below_a);
+                // the deeper branch on the low side and on the high side
+                let (lo, hi) = if k % 2 == 0 { (fb, fa) } else { (fa, fb) };
+                let t = ((tt.var(a) & hi) | (!tt.var(a) & lo)) & tt.full();
+                fs.push(build(cx, &mut memo, t));
+            }
+            let mut gs = vec![];
+            for _ in 0..n_g {
+                let mut t = table_over(cx, &tt, &gv);
+                if t == 0 {
+                    t = tt.var(j);
+                }
+                gs.push(build(cx, &mut memo, t));
+            }
+            for &f in &fs {
+                for &g in &gs {
+                    cx_op!(cx, format!("restrict {} {}", f, g));
+                    cx_op!(cx, format!("constrain {} {}", f, g));
+                    cx_op!(cx, format!("compose {} {} {}", f, dl, g));
+                    cx_op!(cx, format!("compose {} {} {}", f, ta, g));
+                    cx_op!(cx, format!("restrict {} {}", g, f));
+                    cx_op!(cx, format!("itec {} {} {}", g, f, 1));
+                }
+                let roots: Vec<String> = fs.iter().chain(gs.iter()).map(|h| h.to_string()).collect();
+                cx_op!(cx, format!("gc {}", roots.join(" ")));
+            }
+            cx.end();
+        }
+    }
+}
+
+/// C09 (and C02, C10, C11): an operation that runs out of storage part-way, the panic caught, and the
+/// same kind of operation asked again at once or after a collection made room — with the same operands
+/// and another variable, with swapped operands.  The table is filled to leave exactly `k` free cells
+/// (k = 0 … 12) before the first attempt.
+pub fn s_retry(cx: &mut Ctx) {
+    let rounds = if cx.thorough { 30 } else { 3 };
+    for round in 0..rounds {
+        for k in 0..13u64 {
+            for kind in 0..3 {
+                cx.ex.begin_case();
+                cx.ex.tt = None;
+                cx.ex.scan_every = 1;
+                cx_op!(cx, format!("new 6 {} {}", (round + k as usize) % 4, 2 + (k as usize + kind) % 6));
+                let nv = 7usize;
+                let mut vs = vec![0usize];
+                for v in 1..=nv {
+                    vs.push(cx_op!(cx, format!("var {}", v)));
+                }
+                // two operands over the seven variables (parity-like and mux-like mixes: many shared sub-pairs)
+                let mut mk = |cx: &mut Ctx| -> usize {
+                    let mut acc = vs[1 + cx.rng.below(nv as u64) as usize];
+                    for _ in 0..(3 + cx.rng.below(3)) {
+                        let x = vs[1 + cx.rng.below(nv as u64) as usize];
+                        let y = vs[1 + cx.rng.below(nv as u64) as usize];
+                        acc = match cx.rng.below(4) {
+                            0 => cx_op!(cx, format!("xor {} {}", acc, x)),
+                            1 => cx_op!(cx, format!("ite {} {} {}", x, acc, y)),
+                            2 => cx_op!(cx, format!("and {} {}", acc, x)),
+                            _ => cx_op!(cx, format!("or {} {}", acc, x)),
+                        };
+                    }
+                    acc
+                };
+                let f = mk(cx);
+                let g = mk(cx);
+                let keep = format!("gc {} {}", f, g);
+                cx.op(keep.clone());
+                // fill the table with single-node functions of fresh variables until exactly k cells are free
+                let (cap, real) = { let st = cx.ex.bdd().storage(); (st.capacity() as u64, st.real_size() as u64) };
+                let free = cap - 1 - real;
+                let mut junk = 0u64;
+                while free > k + junk {
+                    cx_op!(cx, format!("var {}", 100 + junk));
+                    junk += 1;
+                }
+                let v1 = 1 + cx.rng.below(nv as u64);
+                let mut v2 = 1 + cx.rng.below(nv as u64);
+                if v2 == v1 {
+                    v2 = 1 + v1 % nv as u64;
+                }
+                let first = match kind {
+                    0 => format!("compose {} {} {}", f, v1, g),
+                    1 => format!("constrain {} {}", f, g),
+                    _ => format!("restrict {} {}", f, g),
+                };
+                cx.op(first.clone());
+                let panicked = cx.reply().starts_with("panic");
+                // at once: the same operands, another variable / the twin operation (may fail again)
+                match kind {
+                    0 => cx_op!(cx, format!("compose {} {} {}", f, v2, g)),
+                    1 => cx_op!(cx, format!("restrict {} {}", f, g)),
+                    _ => cx_op!(cx, format!("constrain {} {}", f, g)),
+                };
+                // after a collection that makes room
+                cx.op(keep.clone());
+                match kind {
+                    0 => {
+                        cx_op!(cx, format!("compose {} {} {}", f, v2, g));
+                        cx_op!(cx, format!("compose {} {} {}", f, v1, g));
+                        cx_op!(cx, format!("compose {} {} {}", g, v1, f));
+                    }
+                    1 => {
+                        cx_op!(cx, format!("constrain {} {}", f, g));
+                        cx_op!(cx, format!("restrict {} {}", f, g));
+                    }
+                    _ => {
+                        cx_op!(cx, format!("restrict {} {}", f, g));
+                        cx_op!(cx, format!("constrain {} {}", f, g));
+                    }
+                };
+                if panicked {
+                    cx.ex.bump("retry:first-attempt-panicked");
+                }
+                cx.end();
+            }
+        }
+    }
+}
+
 /// the machine-word layer: `Ref` packing, the link word of a table cell, `i32` literals at the limits of
 /// the type, the value accessors of `Table` that bypass hashing, and the pairing functions of `utils.rs`
 /// that the manager does not use itself
@@ -3686,6 +3985,11 @@ pub fn run_suite(name: &str, cx: &mut Ctx) -> bool {
         "tnode" => s_tnode(cx),
         "gcwrap" => s_gcwrap(cx),
         "bits" => s_bits(cx),
+        "sparse" => {
+            s_sparse(cx);
+            s_staggered(cx)
+        }
+        "retry" => s_retry(cx),
         "cache" => {
             s_cache(cx);
             s_cache_large(cx)
